@@ -1,0 +1,9 @@
+//go:build !verif
+
+package protocol
+
+// verifPagesOn guards the /verif page-event hooks of buffer.go; without the `verif` build tag it is the constant
+// false, so every `if verifPagesOn { verifPageEvent(...) }` is eliminated at compile time.
+const verifPagesOn = false
+
+func verifPageEvent(kind string, p *page) {}
